@@ -443,6 +443,10 @@ public:
     static_assert(std::is_pointer_v<T>, "Operator * only allowed on pointers");
     auto ret_ptr_const =
       reinterpret_cast<const T_OpDerefRet*>(impl().get_raw_value());
+    // &*p and &(*p).field would otherwise turn a null pointer into a small
+    // non-null address that is not in the sandbox
+    detail::dynamic_check(ret_ptr_const != nullptr,
+                          "Dereferencing a null tainted pointer");
     // Safe - If T_OpDerefRet is not a const ptr, this is trivially safe
     //        If T_OpDerefRet is a const ptr, then the const is captured
     //        inside the wrapper
@@ -458,7 +462,13 @@ public:
   {
     static_assert(std::is_pointer_v<T>,
                   "Operator -> only supported for pointer types");
-    return reinterpret_cast<const T_OpDerefRet*>(impl().get_raw_value());
+    auto ret_ptr =
+      reinterpret_cast<const T_OpDerefRet*>(impl().get_raw_value());
+    // &p->field would otherwise turn a null pointer into the offset of the
+    // field: a non-null address that is not in the sandbox
+    detail::dynamic_check(ret_ptr != nullptr,
+                          "Dereferencing a null tainted pointer");
+    return ret_ptr;
   }
 
   inline T_OpDerefRet* operator->()
